@@ -319,15 +319,46 @@ fn check_tape(tape: &[u8], gates: &Gates, codes: &[String], stats: &mut Stats, c
     let all_parse = files.iter().all(|f| crate::panicx::catch(|| ironplc_parser::parse_program(&f.text, &FileId::from_string("x"), &ParseOptions::default()).is_ok()).unwrap_or(false));
     let all_tok = files.iter().all(|f| crate::panicx::catch(|| ironplc_parser::tokenize_program(&f.text, &FileId::from_string("x"), &ParseOptions::default()).1.is_empty()).unwrap_or(false));
     for (cmd, want_ok) in [("echo", all_parse), ("tokenize", all_tok)] {
+        // the files as arguments (either order), the directory, or the first file + a directory with
+        // the others (either order): the same files every time
+        let form = choice.below(6);
         let mut args = vec![cmd.to_string()];
-        args.extend(paths.clone());
+        let form_name = match form {
+            0 | 1 => {
+                args.extend(paths.clone());
+                "files"
+            }
+            2 => {
+                args.extend(paths.iter().rev().cloned());
+                "files-reversed"
+            }
+            3 => {
+                args.push(sub.to_string_lossy().to_string());
+                "directory"
+            }
+            _ => {
+                let rest = dir.path.join(format!("rest_{}", cmd));
+                std::fs::create_dir_all(&rest).unwrap();
+                for (i, f) in files.iter().enumerate().skip(1) {
+                    std::fs::write(rest.join(crate::drive::set_file_name(i)), f.text.as_bytes()).unwrap();
+                }
+                let first = paths[0].clone();
+                let r = rest.to_string_lossy().to_string();
+                if form == 4 {
+                    args.extend([first, r]);
+                } else {
+                    args.extend([r, first]);
+                }
+                "file-and-directory"
+            }
+        };
         let out = run_cli(&args, None);
         if out.timed_out {
             stats.inconclusive += 1;
             continue;
         }
         if counting {
-            stats.class(&format!("{}.files", cmd));
+            stats.class(&format!("{}.{}", cmd, form_name));
         }
         match out.status {
             Some(c) if c != 101 => {} // any exit status but the panic status; death by signal is None
